@@ -1,14 +1,18 @@
 """Brute-force isomorphism / automorphism enumeration on reference models.
 
-Plain backtracking over bijections, atoms assigned in listing order, pruned
-only by label and by consistency of already assigned adjacencies (and bond
-roles when asked).  Descriptors are tested on complete bijections with the
+Plain backtracking over bijections, atoms assigned in breadth-first order,
+candidates restricted to equal label and equal degree, pruned by consistency
+of already assigned adjacencies (and bond roles when asked).  Descriptors are tested on complete bijections with the
 geometric canonical form.  Shares no idea with VF2++ (no frontier sets, no
 matching order, no colour refinement).
 """
 from __future__ import annotations
 
 from vp import symmetry as sym
+
+
+class BudgetExceeded(Exception):
+    """the brute-force search was cut off: no verdict for this case"""
 
 
 def _map_desc(d, f):
@@ -50,7 +54,7 @@ def descs_preserved(m1, m2, f, stereo=True, changes=True):
 
 
 def mappings(m1, m2, labels=None, roles=True, stereo=True, changes=True,
-             stats=None):
+             stats=None, budget=150000):
     """Yield every bijection atoms(m1) -> atoms(m2) that preserves the labels
     (default: element), adjacency, bond roles (if ``roles``), static
     descriptors (if ``stereo``) and stereo changes (if ``changes``)."""
@@ -67,8 +71,43 @@ def mappings(m1, m2, labels=None, roles=True, stereo=True, changes=True,
     f = {}
     used = set()
     b1, b2 = m1.bonds, m2.bonds
+    adj1 = {a: set() for a in a1}
+    for b in b1:
+        x, y = tuple(b)
+        adj1[x].add(y)
+        adj1[y].add(x)
+    deg2 = {a: 0 for a in a2}
+    for b in b2:
+        for x in b:
+            deg2[x] += 1
+    # assign atoms of m1 in breadth-first order (each atom next to an
+    # already assigned one where possible) - only an ordering, no pruning
+    order, seen = [], set()
+    for s0 in a1:
+        if s0 in seen:
+            continue
+        queue = [s0]
+        seen.add(s0)
+        while queue:
+            x = queue.pop(0)
+            order.append(x)
+            for y in sorted(adj1[x], key=a1.index):
+                if y not in seen:
+                    seen.add(y)
+                    queue.append(y)
+    a1 = order
+    earlier_nbrs = []
+    for i, u in enumerate(a1):
+        earlier_nbrs.append([(j, a1[j]) for j in range(i)])
+    # candidates: same label and same degree (both isomorphism invariants)
+    cands = {u: [v for v in a2 if l1[u] == l2[v]
+                 and deg2[v] == len(adj1[u])] for u in a1}
+    nodes = [0]
 
     def rec(i):
+        nodes[0] += 1
+        if nodes[0] > budget:
+            raise BudgetExceeded()
         if i == n:
             if descs_preserved(m1, m2, f, stereo, changes):
                 yield dict(f)
@@ -76,12 +115,11 @@ def mappings(m1, m2, labels=None, roles=True, stereo=True, changes=True,
                 stats["backtracks"] = stats.get("backtracks", 0) + 1
             return
         u = a1[i]
-        for v in a2:
-            if v in used or l1[u] != l2[v]:
+        for v in cands[u]:
+            if v in used:
                 continue
             ok = True
-            for j in range(i):
-                w = a1[j]
+            for j, w in earlier_nbrs[i]:
                 e1 = b1.get(frozenset((u, w)))
                 e2 = b2.get(frozenset((v, f[w])))
                 if (e1 is None) != (e2 is None):
